@@ -699,7 +699,8 @@ def oracle_file(chk, case, row, cf_version):
                 for k, u in enumerate(inp["unlimited"]):
                     isun = f["dims"][vdims[extra + k]][1]
                     # a dimension shared with another field is unlimited if either asks for it (C09)
-                    if (u and not isun) or (isun and not u and len(inputs) == 1):
+                    # (later fields re-use dimensions created by earlier ones: C09)
+                    if (u and not isun and i == 0) or (isun and not u and len(inputs) == 1):
                         fail("unlimited-dimension",
                              f"{dv}: dimension {vdims[extra + k]} unlimited={isun}, requested {u}")
             if dt not in ("vlen-str", "S1") and plain:
